@@ -84,6 +84,8 @@ SHIMS = {
     'hs-extend-vec': dict(pattern=r'\b(self\.\w+)\.extend\((\w+)\.iter\(\)\);', replace=r'hs_extend_vec(&mut \1, &\2);', spec="S' = S u set(v)"),
     'hs-minus-vec': dict(pattern=r'self\s*\.mode\s*\.iter\(\)\s*\.filter\(\|&&x\| !(\w+)\.iter\(\)\.any\(\|&y\| x == y\)\)\s*\.cloned\(\)\s*\.collect\(\)', replace=r'hs_minus_vec(&self.mode, &\1)', spec="r = S \\ set(v)"),
     'buffer-set-reverse': dict(pattern=r'for line in self\.buffer\.values_mut\(\) \{\s*(?://[^\n]*\n\s*)*for x in line\.iter_mut\(\) \{\s*x\.1\.reverse = (true|false);\s*\}\s*\}', replace=r'buffer_set_reverse(&mut self.buffer, \1);', spec='every stored cell: reverse := R, nothing else'),
+    # the same double loop written over iter_mut() pairs with the row marked dirty inside it (marks only STORED rows)
+    'buffer-set-reverse-mark': dict(pattern=r'for \(y, line\) in self\.buffer\.iter_mut\(\) \{\s*self\.dirty\.insert\(\*y\);\s*(?://[^\n]*\n\s*)*for x in line\.iter_mut\(\) \{\s*x\.1\.reverse = (true|false);\s*\}\s*\}', replace=r'buffer_set_reverse_mark(&mut self.buffer, &mut self.dirty, \1);', spec='every stored cell: reverse := R; dirty := dirty u {stored rows}'),
     'buffer-remove-columns': dict(pattern=r'for line in self\.buffer\.values_mut\(\) \{\s*for x in ([^{}.]+(?:\.\w+)*?)\.\.([^{}]+?) \{\s*line\.remove\(&x\);\s*\}\s*\}', replace=r'buffer_remove_columns(&mut self.buffer, \1, \2);', spec='every stored row: keys lo..hi removed, nothing else'),
     # HashSet<u32>::extend(range)  ->  call-out with spec  S' = S u [a,b)
     'hs-extend-range': dict(pattern=r'\b(self\.dirty)\.extend\(((?:[^();]|\([^()]*\))*)\);', replace=r'hs_extend_range(&mut \1, \2);',
